@@ -4,5 +4,5 @@ set -e
 d=$(mktemp -d /tmp/try-XXXXXX)
 rsync -a --exclude .git --exclude __pycache__ /repo/ $d/repo/
 (cd $d/repo && git init -q && git apply --whitespace=nowarn /verif/$1/patch.diff)
-cd /verif && VERIF_REPO=$d/repo VERIF_EVIDENCE_DIR=$d/ev /venv/bin/python check.py $2 --tier ${3:-quick} 2>&1 | grep -E -A${CTX:-4} "VIOLATION|ANALYSIS-ERROR|KNOWN" | cut -c1-${W:-400} | head -${N:-16}
+cd /verif && VERIF_REPO=$d/repo VERIF_EVIDENCE_DIR=$d/ev /venv/bin/python check.py $2 --tier ${3:-quick} 2>&1 | grep -E "^  rule |VIOLATION|ANALYSIS-ERROR|KNOWN" | cut -c1-${W:-400} | head -${N:-16}
 rm -rf $d
